@@ -19,8 +19,8 @@ func init() {
 	register(&Rule{
 		Prop: "C04",
 		Explanation: "Every way a command can enter a search answer passes both filters, decided from the SSA form for every database, query and flag setting: (O-1) each insertion site of the engine — the score-accumulator update of the lexical/NLP path, the matcher-target store of the typo fallback (an unfilled target never matches), and the result append of the pipeline search — is unreachable unless the platform gate passed for that very command (same index / same pointer) and unless the pipeline gate passed (PipelineOnly false or isPipelineCommand of that command); cached answers are conversions of such lists; " +
-			"(O-2) the platform gate is one function whose `true` results are reachable only through: AllPlatforms; no declared platform; a declared platform equal to the host platform when no platform was requested, or to one of the requested platforms (every element of Platforms is tried); or, only when NoCrossPlatform is false, the cross-platform tag / recognised cross-platform tool — and every SearchOptions field the CLI fills from a flag is read on the path the CLI calls; (O-3) every comparison of a platform tag is case-insensitive (EqualFold, or a ToLower image against lower-case names); (O-4) all paths use the same pipeline classifier and the same cross-platform-tool classifier. The content of the alias table and of the tool whitelist is data and not decided.",
-		NotDecided:  []string{"contents of the platform alias table and of the cross-platform tool whitelist", "the CLI's last-resort recovery search, which the property's filter clause does not list (it filters nothing)"},
+			"(O-2) the platform gate is one function whose `true` results are reachable only through: AllPlatforms; no declared platform; a declared platform equal to the host platform when no platform was requested, or to one of the requested platforms (every element of Platforms is tried); or, only when NoCrossPlatform is false, the cross-platform tag / recognised cross-platform tool — and every SearchOptions field the CLI fills from a flag is read on the path the CLI calls; (O-3) every comparison of a platform tag is case-insensitive (EqualFold, or a ToLower image against lower-case names); (O-5) the alias tests of the platform families, read off as a table of (family, test kind, constant), accept no platform name or alias constant of another family; (O-4) all paths use the same pipeline classifier and the same cross-platform-tool classifier. The content of the alias table and of the tool whitelist is data and not decided.",
+		NotDecided:  []string{"whether the platform alias table is complete and which tools the cross-platform whitelist names (only the disjointness of the alias families is decided, O-5)", "the CLI's last-resort recovery search, which the property's filter clause does not list (it filters nothing)"},
 		Assumptions: []string{"fuzzy.Find never matches an empty target for a non-empty pattern"},
 		Run:         runC04,
 	})
@@ -494,6 +494,7 @@ func runC04(c *Ctx) {
 	c04Gate(c, sx, g)
 	c04Consumed(c)
 	c04Case(c, g)
+	c04Aliases(c, g)
 }
 
 // c04Gate checks the meaning of the platform gate function.
@@ -791,4 +792,172 @@ func c04Case(c *Ctx, g *gateInfo) {
 		})
 	}
 	r.Floor("O-3", "platform tag comparisons examined", n, 8)
+}
+
+// c04Aliases: O-5. The alias tests of the platform families are read off as a
+// table (family constant -> tests on the tag: ==, EqualFold, HasPrefix,
+// HasSuffix, Contains, each with a constant) and cross-checked: no test of
+// one family accepts a name that belongs to another family (its platform
+// constant or one of its alias constants). A tag of one platform matching
+// another platform's table lets foreign commands through the filter.
+func c04Aliases(c *Ctx, g *gateInfo) {
+	r := c.R
+	r.Rule("O-5", "alias tables are disjoint: within the gate's closure, no alias test of one platform family (==, EqualFold, HasPrefix, HasSuffix, Contains against a constant, under a test of the platform against that family's constant) accepts the platform name or an alias constant of another family")
+	type test struct {
+		root  ssa.Value
+		kind  string
+		k     string
+		blk   *ssa.BasicBlock
+		iff   *ssa.If
+		truth int // successor index on which the test holds
+		pos   token.Pos
+	}
+	rootOf := func(v ssa.Value) ssa.Value {
+		for i := 0; i < 6; i++ {
+			v = ssau.Strip(v)
+			call, ok := v.(*ssa.Call)
+			if !ok {
+				break
+			}
+			switch ssau.CallName(call) {
+			case "strings.ToLower", "strings.TrimSpace", "strings.ToUpper":
+				v = call.Common().Args[0]
+				continue
+			}
+			if cal := call.Common().StaticCallee(); cal != nil && c.P.IsRepoFunc(cal) && len(call.Common().Args) == 1 {
+				v = call.Common().Args[0] // a repo normaliser of one string
+				continue
+			}
+			break
+		}
+		return v
+	}
+	ifOf := func(v ssa.Value) (*ssa.If, int) {
+		for _, ref := range *v.Referrers() {
+			if iff, ok := ref.(*ssa.If); ok {
+				return iff, 0
+			}
+			if u, ok := ref.(*ssa.UnOp); ok && u.Op == token.NOT {
+				for _, r2 := range *u.Referrers() {
+					if iff, ok := r2.(*ssa.If); ok {
+						return iff, 1
+					}
+				}
+			}
+		}
+		return nil, 0
+	}
+	accepts := func(t test, w string) bool {
+		switch t.kind {
+		case "==":
+			return w == t.k
+		case "EqualFold":
+			return strings.EqualFold(w, t.k)
+		case "HasPrefix":
+			return strings.HasPrefix(w, t.k)
+		case "HasSuffix":
+			return strings.HasSuffix(w, t.k)
+		case "Contains":
+			return strings.Contains(w, t.k)
+		}
+		return false
+	}
+	nTag := 0
+	for _, fn := range reachClosure(c, []*ssa.Function{g.fn}) {
+		var tests []test
+		ssau.ForEachInstr(fn, false, func(in ssa.Instruction) {
+			switch x := in.(type) {
+			case *ssa.BinOp:
+				if x.Op != token.EQL && x.Op != token.NEQ {
+					return
+				}
+				subj, kv := x.X, x.Y
+				if _, ok := ssau.ConstString(kv); !ok {
+					subj, kv = x.Y, x.X
+				}
+				k, ok := ssau.ConstString(kv)
+				if !ok {
+					return
+				}
+				if b, isB := subj.Type().Underlying().(*types.Basic); !isB || b.Info()&types.IsString == 0 {
+					return
+				}
+				iff, neg := ifOf(x)
+				truth := neg
+				if x.Op == token.NEQ {
+					truth = 1 - truth
+				}
+				tests = append(tests, test{rootOf(subj), "==", k, x.Block(), iff, truth, x.Pos()})
+			case *ssa.Call:
+				nm := ssau.CallName(x)
+				kind := strings.TrimPrefix(nm, "strings.")
+				switch kind {
+				case "HasPrefix", "HasSuffix", "Contains", "EqualFold":
+				default:
+					return
+				}
+				a := x.Common().Args
+				subj, kv := a[0], a[1]
+				k, ok := ssau.ConstString(kv)
+				if !ok && kind == "EqualFold" {
+					subj, kv = a[1], a[0]
+					k, ok = ssau.ConstString(kv)
+				}
+				if !ok {
+					return
+				}
+				iff, neg := ifOf(x)
+				tests = append(tests, test{rootOf(subj), kind, k, x.Block(), iff, neg, x.Pos()})
+			}
+		})
+		// family of a tag test: an == test on another root whose true edge
+		// every path to the tag test passes
+		fam := map[string][]test{}
+		var order []string
+		for _, t := range tests {
+			for _, f := range tests {
+				if f.kind != "==" || f.iff == nil || f.root == t.root || f.blk == t.blk {
+					continue
+				}
+				cut := map[[2]int]bool{{f.iff.Block().Index, f.truth}: true}
+				if !ssau.ReachableAvoidingEdges(fn, t.blk, cut) {
+					if _, seen := fam[f.k]; !seen {
+						order = append(order, f.k)
+					}
+					fam[f.k] = append(fam[f.k], t)
+					break
+				}
+			}
+		}
+		if len(fam) < 2 {
+			continue
+		}
+		sort.Strings(order)
+		vocab := map[string][]string{}
+		for _, f := range order {
+			vocab[f] = append(vocab[f], strings.ToLower(f))
+			for _, t := range fam[f] {
+				vocab[f] = append(vocab[f], strings.ToLower(t.k))
+			}
+		}
+		for _, f := range order {
+			for _, t := range fam[f] {
+				nTag++
+				key := fmt.Sprintf("%s#family:%s:%s(%s)", load.FuncKey(fn), f, t.kind, t.k)
+				bad := ""
+				for _, g2 := range order {
+					if g2 == f {
+						continue
+					}
+					for _, w := range vocab[g2] {
+						if accepts(t, w) {
+							bad = fmt.Sprintf("accepts %q, which belongs to the %s family", w, g2)
+						}
+					}
+				}
+				r.Check(bad == "", "O-5", key, c.P.Pos(t.pos), "accepts no name of another family", "the "+f+" alias test "+t.kind+"(tag, "+fmt.Sprintf("%q", t.k)+") "+bad+": commands tagged for that platform pass the "+f+" filter")
+			}
+		}
+	}
+	r.Floor("O-5", "alias tests read into the table", nTag, 11)
 }
